@@ -32,6 +32,7 @@ from .. import translate_norm as TN
 from ..common import COQ, COQ_FLAGS, SRC, VERIF, Ctx, cfloat, clist, copt, cq, parse_coq_value, sh
 
 SRC_REL = "core/visualization/custom_normalizations.py"
+VIS_REL = "core/visualization/visualization.py"
 GEN_DIR = COQ / "gen_proofs"
 
 EXPECTED_STRETCHES = ["LinearStretch", "PowerLawStretch", "LogarithmicStretch", "InverseLogarithmicStretch",
@@ -89,26 +90,36 @@ def _enclosing_lemma(script: Path, out: str) -> str:
     return name
 
 
-def proof_phase(ctx: Ctx):
-    """returns the Translation (or None) and starts nothing else"""
-    problems = []
+GEN_FLAGS = lambda ctx: COQ_FLAGS + ["-Q", str(ctx.dir), "Gen20"]  # noqa
+
+
+def static_proofs(ctx: Ctx, problems: list):
+    """theorems about the hand-written executable model (coq/props/C20_Properties.v)"""
     rc, out = ctx.coq_make(["props/C20_Properties.vo", "proof/C20_RLemmas.vo", "lib/C20_NpReal.vo"])
     if rc != 0:
         (ctx.dir / "make_failure.log").write_text(out)
     if not ctx.require_proofs():
         problems += ctx._proof_problems
-    cmd1 = ctx.cov["checker_cmd"]
+    return ctx.cov["checker_cmd"]
 
-    gen_props = GEN_DIR / "C20_GenProperties.v"
-    gen_proofs = GEN_DIR / "C20_GenProofs.v"
-    gen_theorems = re.findall(r"(?m)^\s*Theorem\s+(\w+)", gen_props.read_text())
 
-    def not_checked(why):
-        ctx.cov["obligations"] += len(gen_theorems)
-        for t in gen_theorems:
-            ctx.cov["theorems"][t] = "NOT CHECKED (%s)" % why
+def _theorems_of(path: Path):
+    return re.findall(r"(?m)^\s*Theorem\s+(\w+)", path.read_text())
 
+
+def _not_checked(ctx, path: Path, why: str):
+    ths = _theorems_of(path)
+    ctx.cov["obligations"] += len(ths)
+    for th in ths:
+        ctx.cov["theorems"][th] = "NOT CHECKED (%s)" % why
+
+
+def translate_phase(ctx: Ctx, problems: list):
+    """translate the CURRENT sources and compile the generated files; returns (T, C):
+    T  Translation of custom_normalizations.py (None: rejected), Gen_Norm.vo present iff it compiled
+    C  ConfigTranslation (None: rejected), Gen_Cfg.vo present iff it compiled"""
     src = SRC / "quantem" / SRC_REL
+    vis = SRC / "quantem" / VIS_REL
     T = None
     try:
         T = TN.translate(src)
@@ -129,11 +140,12 @@ def proof_phase(ctx: Ctx):
         problems.append("translator could not read the source: %r" % e)
         ctx.cov["translator"] = {"status": "failed", "error": repr(e)}
 
-    flags = COQ_FLAGS + ["-Q", str(ctx.dir), "Gen20"]
-    built = False
-    if T is None:
-        not_checked("translator rejected the source")
-    else:
+    for stale in ("Gen_Norm.vo", "Gen_Cfg.vo", "C20_GenProofs.vo", "C20_GenProofs2.vo", "C20_GenProofsCfg.vo",
+                  "C20_GenProperties.vo", "C20_GenPropertiesCfg.vo"):
+        if (ctx.dir / stale).exists():
+            (ctx.dir / stale).unlink()
+    flags = GEN_FLAGS(ctx)
+    if T is not None:
         if list(T.stretches) != EXPECTED_STRETCHES or T.pairs != EXPECTED_PAIRS \
                 or set(T.cn_stretches) != EXPECTED_CN_STRETCHES or set(T.cn_intervals) != EXPECTED_CN_INTERVALS:
             problems.append("the set of stretch / interval classes or their inverse pairing changed: the fixed "
@@ -141,37 +153,95 @@ def proof_phase(ctx: Ctx):
                             % (T.stretches, T.pairs, T.cn_stretches, T.cn_intervals))
         gen = ctx.dir / "Gen_Norm.v"
         gen.write_text(TN.coq_text(T))
-        for stale in ("Gen_Norm.vo", "C20_GenProofs.vo", "C20_GenProperties.vo"):
-            if (ctx.dir / stale).exists():
-                (ctx.dir / stale).unlink()
-        bad = ctx.static_scan([gen, gen_proofs, gen_props])
-        if bad:
-            problems.append("forbidden declarations: %s" % bad[:5])
         rc, out = sh(["timeout", "300", "coqc"] + flags + [str(gen)], cwd=ctx.dir, timeout=330)
         if rc != 0:
             problems.append("generated file Gen_Norm.v does not compile:\n" + "\n".join(out.strip().splitlines()[-12:]))
-            not_checked("generated file does not compile")
+
+    C = None
+    try:
+        C = TN.translate_config(src.read_text(), vis.read_text())
+        ctx.cov["translator_config"] = {"status": "ok", "config_fields": [f[0] for f in C.fields],
+                                        "constructor_parameters": [p[0] for p in C.params],
+                                        "presets": sorted(C.presets)}
+    except TN.TranslateError as e:
+        problems.append("configuration translator (fail closed): %s" % e)
+        ctx.cov["translator_config"] = {"status": "rejected", "error": str(e)}
+    except Exception as e:  # noqa
+        problems.append("configuration translator could not read the sources: %r" % e)
+        ctx.cov["translator_config"] = {"status": "failed", "error": repr(e)}
+    if C is not None and (ctx.dir / "Gen_Norm.vo").exists():
+        gen = ctx.dir / "Gen_Cfg.v"
+        gen.write_text(TN.config_coq_text(C))
+        rc, out = sh(["timeout", "300", "coqc"] + flags + [str(gen)], cwd=ctx.dir, timeout=330)
+        if rc != 0:
+            problems.append("generated file Gen_Cfg.v does not compile:\n" + "\n".join(out.strip().splitlines()[-12:]))
+    return T, C
+
+
+class GenChain(threading.Thread):
+    """the fixed proof scripts over the generated files, then the property files (Print
+    Assumptions parsed by the framework).  Runs next to the Python-side checks: it only touches the
+    proof-related keys of ctx.cov (obligations / discharged / theorems / trusted_base / checker_cmd)."""
+
+    def __init__(self, ctx):
+        super().__init__(daemon=True)
+        self.ctx = ctx
+        self.problems: list = []
+        self.error = None
+
+    def _script(self, name):
+        ctx = self.ctx
+        script = GEN_DIR / (name + ".v")
+        rc, out = sh(["timeout", "600", "coqc"] + GEN_FLAGS(ctx) + ["-o", str(ctx.dir / (name + ".vo")), str(script)],
+                     cwd=ctx.dir, timeout=630)
+        (ctx.dir / (name + ".out")).write_text(out)
+        if rc != 0:
+            lem = _enclosing_lemma(script, out)
+            self.problems.append("the model translated from the current source no longer satisfies the fixed proof "
+                                 "script %s.v (at `%s`):\n%s" % (name, lem, "\n".join(out.strip().splitlines()[-14:])))
+            return "fixed proof script %s fails at %s" % (name, lem)
+        return None
+
+    def _props(self, name):
+        ctx = self.ctx
+        if not ctx.require_proofs(props_name=name, props_path=GEN_DIR / (name + ".v"),
+                                  extra_flags=["-Q", str(ctx.dir), "Gen20"], make_targets=[]):
+            self.problems += ctx._proof_problems
+
+    def run(self):
+        try:
+            self._run()
+        except Exception as e:  # noqa
+            import traceback
+            self.error = traceback.format_exc()
+            self.problems.append("proof chain died: %r" % e)
+
+    def _run(self):
+        ctx = self.ctx
+        gp, gpc = GEN_DIR / "C20_GenProperties.v", GEN_DIR / "C20_GenPropertiesCfg.v"
+        scripts = [GEN_DIR / (n + ".v") for n in ("C20_GenProofs", "C20_GenProofs2", "C20_GenProofsCfg")]
+        gens = [f for f in (ctx.dir / "Gen_Norm.v", ctx.dir / "Gen_Cfg.v") if f.exists()]
+        bad = ctx.static_scan(gens + scripts + [gp, gpc])
+        if bad:
+            self.problems.append("forbidden declarations: %s" % bad[:5])
+        why = None
+        if not (ctx.dir / "Gen_Norm.vo").exists():
+            why = "translator rejected the source / generated file does not compile"
         else:
-            rc, out = sh(["timeout", "600", "coqc"] + flags + ["-o", str(ctx.dir / "C20_GenProofs.vo"), str(gen_proofs)],
-                         cwd=ctx.dir, timeout=630)
-            (ctx.dir / "C20_GenProofs.out").write_text(out)
-            if rc != 0:
-                lem = _enclosing_lemma(gen_proofs, out)
-                problems.append("the model translated from the current source no longer satisfies the fixed proof "
-                                "script C20_GenProofs.v (at `%s`):\n%s" % (lem, "\n".join(out.strip().splitlines()[-14:])))
-                not_checked("fixed proof script fails at %s" % lem)
-            else:
-                built = True
-                if not ctx.require_proofs(props_name="C20_GenProperties", props_path=gen_props,
-                                          extra_flags=["-Q", str(ctx.dir), "Gen20"], make_targets=[]):
-                    problems += ctx._proof_problems
-    ctx.cov["checker_cmd"] = (cmd1 + "  ;  python -m harness.translate_norm > build/C20/Gen_Norm.v && coqc %s Gen_Norm.v "
-                              "&& coqc ... -o build/C20/C20_GenProofs.vo coq/gen_proofs/C20_GenProofs.v && coqc ... "
-                              "coq/gen_proofs/C20_GenProperties.v" % " ".join(flags))
-    if problems:
-        ctx.broken_obligation = "; ".join(problems)
-        ctx.log("PROOF OBLIGATION BROKEN:", ctx.broken_obligation[:3000])
-    return T, built
+            why = self._script("C20_GenProofs") or self._script("C20_GenProofs2")
+        if why:
+            _not_checked(ctx, gp, why)
+            _not_checked(ctx, gpc, why)
+            return
+        self._props("C20_GenProperties")
+        if not (ctx.dir / "Gen_Cfg.vo").exists():
+            why = "configuration translator rejected the sources / generated file does not compile"
+        else:
+            why = self._script("C20_GenProofsCfg")
+        if why:
+            _not_checked(ctx, gpc, why)
+            return
+        self._props("C20_GenPropertiesCfg")
 
 
 # ==========================================================================================
@@ -324,15 +394,47 @@ def build_crosstest(ctx: Ctx, T):
     return pts
 
 
-def crosstest_file(T, pts) -> str:
+CFG_TACTIC = r"""
+Ltac cfg_req :=
+  repeat match goal with
+         | |- context [Req_EM_T ?a ?b] =>
+           let e := fresh "e" in let n := fresh "n" in
+           destruct (Req_EM_T a b) as [e | n];
+           [ try (exfalso; lra) | try (exfalso; apply n; lra) ]
+         end.
+Ltac cfg_xt :=
+  cbv beta iota delta [show_2d_array_args show_2d_combined_args CN_init_interval CN_init_stretch so_domain
+    a_interval_type a_stretch_type a_lower_quantile a_upper_quantile a_vmin a_vmax a_vcenter
+    a_half_range a_power a_logarithmic_index a_asinh_linear_range
+    nc_interval_type nc_stretch_type nc_lower_quantile nc_upper_quantile nc_vmin nc_vmax nc_vcenter
+    nc_half_range nc_power nc_logarithmic_index nc_asinh_linear_range
+    LinearStretch_domain PowerLawStretch_domain LogarithmicStretch_domain InverseLogarithmicStretch_domain
+    InverseHyperbolicSineStretch_domain HyperbolicSineStretch_domain];
+  cbn [String.eqb Ascii.eqb Bool.eqb];
+  cfg_req;
+  first [ reflexivity | exact I | lra | (intros ?; lra) | (intros Hdom; apply Hdom; lra) ].
+"""
+
+
+def crosstest_file(T, pts, indices, with_cfg) -> str:
+    """one shard: the points pts[i] for i in indices (global numbering in the XT-FAIL markers)"""
     names = list(T.defs) + ["np_clip", "np_power", "fst", "snd"]
     for s in T.stretches:
         names += [s + "_default_inverse_call"]
-    lines = ["From Coq Require Import Reals Lra.", "From Interval Require Import Tactic.",
+    lines = ["From Coq Require Import Reals Lra String.", "From Interval Require Import Tactic.",
              "From QV.lib Require Import C20_NpReal.", "From Gen20 Require Import Gen_Norm.",
+             "From Gen20 Require Import Gen_Cfg." if with_cfg else "",
              "Local Open Scope R_scope.",
-             "Ltac xt_unfold := cbv beta iota delta [%s]." % " ".join(names), XT_TACTIC]
-    for i, (label, expr, y) in enumerate(pts):
+             "Ltac xt_unfold := cbv beta iota delta [%s]." % " ".join(names), XT_TACTIC,
+             CFG_TACTIC if with_cfg else ""]
+    for i in indices:
+        label, expr, y = pts[i]
+        if isinstance(expr, tuple):          # ("prop", <Coq proposition about the configuration path>)
+            if not with_cfg:
+                lines.append('Goal True. idtac "XT-FAIL %d". exact I. Qed.' % i)
+                continue
+            lines.append('Goal True. first [ assert (%s) by cfg_xt | idtac "XT-FAIL %d" ]. exact I. Qed.' % (expr[1], i))
+            continue
         if not math.isfinite(y):
             lines.append('Goal True. idtac "XT-NONFINITE %d". exact I. Qed.' % i)
             continue
@@ -344,47 +446,79 @@ def crosstest_file(T, pts) -> str:
 
 
 class CrossTest(threading.Thread):
-    def __init__(self, ctx, T, pts):
+    """the enclosure / configuration goals, sharded over several coqc processes (each `interval`
+    call costs ~0.1 s; one process took 70 s of the quick tier)"""
+
+    N_SHARDS = 12
+
+    def __init__(self, ctx, T, pts, with_cfg):
         super().__init__(daemon=True)
-        self.ctx, self.T, self.pts = ctx, T, pts
+        self.ctx, self.T, self.pts, self.with_cfg = ctx, T, pts, with_cfg
         self.rc, self.out = None, ""
 
     def run(self):
-        fn = self.ctx.dir / "crosstest.v"
-        fn.write_text(crosstest_file(self.T, self.pts))
-        flags = COQ_FLAGS + ["-Q", str(self.ctx.dir), "Gen20"]
-        self.rc, self.out = sh(["timeout", "900", "coqc"] + flags + [str(fn)], cwd=self.ctx.dir, timeout=930)
+        from concurrent.futures import ThreadPoolExecutor
+        n = len(self.pts)
+        k = max(1, min(self.N_SHARDS, n // 20 or 1))
+        shards = [list(range(j, n, k)) for j in range(k)]       # round-robin: even load per shard
+        flags = GEN_FLAGS(self.ctx)
+
+        def one(j):
+            fn = self.ctx.dir / ("crosstest_%02d.v" % j)
+            fn.write_text(crosstest_file(self.T, self.pts, shards[j], self.with_cfg))
+            return sh(["timeout", "900", "coqc"] + flags + [str(fn)], cwd=self.ctx.dir, timeout=930)
+
+        with ThreadPoolExecutor(max_workers=k) as ex:
+            res = list(ex.map(one, range(k)))
+        self.rc = max(rc for rc, _ in res)
+        self.out = "\n".join(o for _, o in res)
         (self.ctx.dir / "crosstest.out").write_text(self.out)
 
 
 def finish_crosstest(ctx: Ctx, xt: CrossTest):
     xt.join()
     pts = xt.pts
-    ctx.cov["translator_crosstest"] = {"points": len(pts), "rule":
+    n_cfg = sum(1 for p in pts if isinstance(p[1], tuple))
+    ctx.cov["translator_crosstest"] = {"points": len(pts), "configuration_goals": n_cfg, "rule":
                                        "implementation float must lie in the `interval` enclosure (i_prec 80) of the "
-                                       "generated Coq expression widened by 1e-11 relative"}
+                                       "generated Coq expression widened by 1e-11 relative; configuration goals: the "
+                                       "interval / stretch object the implementation built from a configuration must be "
+                                       "the value of the translated CN_init_interval / CN_init_stretch (exact rationals)"}
     if xt.rc != 0:
         ctx.violation("translator-crosstest-machinery",
                       "the translator cross-test file did not compile (tie between generated Coq and implementation not "
                       "established): " + "\n".join(xt.out.strip().splitlines()[-6:]),
                       {"kind": "crosstest", "log": xt.out[-3000:]}, found_input=False)
         return
-    fails = [int(x) for x in re.findall(r"XT-(?:FAIL|NONFINITE) (\d+)", xt.out)]
+    fails = sorted(int(x) for x in re.findall(r"XT-(?:FAIL|NONFINITE) (\d+)", xt.out))
     ctx.cov["translator_crosstest"]["enclosed"] = len(pts) - len(fails)
     ctx.cov["evaluations"] += len(pts)
     ctx.cov["traces_validated_against_impl"] += len(pts) - len(fails)
-    ctx.dist("crosstest/points", len(pts))
-    if fails:
-        i = fails[0]
+    ctx.dist("crosstest/points", len(pts) - n_cfg)
+    ctx.dist("crosstest/configuration-goals", n_cfg)
+    num_fails = [i for i in fails if not isinstance(pts[i][1], tuple)]
+    cfg_fails = [i for i in fails if isinstance(pts[i][1], tuple)]
+    if num_fails:
+        i = num_fails[0]
         label, expr, y = pts[i]
-        ctx.cov["disagreements_checked"] += len(fails)
+        ctx.cov["disagreements_checked"] += len(num_fails)
         ctx.violation("translator-crosstest",
                       "generated Coq expression does not enclose the implementation's value at %d of %d points; first: "
                       "%s = %r but `%s` is not within 1e-11 of it (translator or vocabulary no longer matches the code)"
-                      % (len(fails), len(pts), label, y, expr),
+                      % (len(num_fails), len(pts), label, y, expr),
                       {"kind": "crosstest", "label": label, "coq": expr, "impl": y,
-                       "all_failing": [pts[j][0] for j in fails[:40]]}, found_input=False)
-    ctx.log("translator cross-test: %d points, %d not enclosed" % (len(pts), len(fails)))
+                       "all_failing": [pts[j][0] for j in num_fails[:40]]}, found_input=False)
+    if cfg_fails:
+        i = cfg_fails[0]
+        label, expr, _ = pts[i]
+        ctx.cov["disagreements_checked"] += len(cfg_fails)
+        ctx.violation("config-dispatch-correspondence",
+                      "the objects the implementation builds from a configuration are not what the translated "
+                      "CustomNormalization.__init__ / visualization call site yields at %d of %d goals; first: %s — could "
+                      "not prove `%s`" % (len(cfg_fails), n_cfg, label, expr[1]),
+                      {"kind": "crosstest", "label": label, "coq": expr[1],
+                       "all_failing": [pts[j][0] for j in cfg_fails[:40]]}, found_input=False)
+    ctx.log("translator cross-test: %d points (%d configuration goals), %d not established" % (len(pts), n_cfg, len(fails)))
 
 
 # ==========================================================================================
@@ -445,9 +579,76 @@ def gen_array(r, dtype=None, n=None, specials=None):
 
 
 def to_np(a):
+    """the array of a case; optional "shape" (any rank) and "layout": "F" (Fortran order),
+    "strided" (every second element of a larger buffer), "reversed" (negative stride)"""
     if a["dtype"].startswith("float"):
-        return np.array([float(v) for v in a["data"]], dtype=a["dtype"])
-    return np.array(a["data"], dtype=a["dtype"])
+        arr = np.array([float(v) for v in a["data"]], dtype=a["dtype"])
+    else:
+        arr = np.array(a["data"], dtype=a["dtype"])
+    if a.get("shape") is not None:
+        arr = arr.reshape(a["shape"])
+    lay = a.get("layout")
+    if lay == "F":
+        arr = np.asfortranarray(arr)
+    elif lay == "strided":
+        big = np.zeros(arr.shape[:-1] + (2 * arr.shape[-1],), dtype=arr.dtype) if arr.ndim else None
+        if big is not None:
+            big[..., ::2] = arr
+            big[..., 1::2] = arr[..., ::-1]
+            arr = big[..., ::2]
+    elif lay == "reversed":
+        arr = np.ascontiguousarray(arr[..., ::-1])[..., ::-1]
+    return arr
+
+
+def gen_shape(r, a):
+    """in place: a random shape (rank 1..4, unit axes included) and memory layout for the case"""
+    n = len(a["data"])
+    if r.random() < 0.45:
+        return a
+    facs = [d for d in range(1, n + 1) if n % d == 0]
+    d1 = r.choice(facs)
+    rest = n // d1
+    d2 = r.choice([d for d in range(1, rest + 1) if rest % d == 0])
+    shape = [d1, d2, rest // d2]
+    if r.random() < 0.3:
+        shape.insert(r.randrange(4), 1)
+    if r.random() < 0.5:
+        shape = [s for s in shape if s != 1] or [n]
+    a["shape"] = shape
+    a["layout"] = r.choice([None, None, "F", "strided", "reversed"])
+    return a
+
+
+EXTRA_DTYPES = ["uint32", "uint64", "float16"]
+
+
+def gen_array_extra(r):
+    """dtypes beyond those of the interval correspondence (whose Q / binary64 models compare to
+    float64 / float32 results): unsigned 32 / 64-bit integers up to the top of their range, float16"""
+    dtype = r.choice(EXTRA_DTYPES)
+    n = r.choice([3, 4, 6, 8, 12, 16])
+    if dtype == "float16":
+        vals = [float(np.float16(r.randint(-256, 256) / 16.0)) for _ in range(n)]
+        if len(set(vals)) < 2:
+            vals[0] = vals[-1] + 1.0
+        if r.random() < 0.5:
+            vals[r.randrange(n)] = r.choice(["nan", "inf", "-inf"])
+            if len({v for v in vals if not isinstance(v, str)}) < 2:
+                vals += [1.5, -2.25]
+        return {"dtype": dtype, "data": vals}
+    info = np.iinfo(dtype)
+    kind = r.choice(["low", "top", "spread"])
+    if kind == "low":
+        vals = [r.randint(0, 1 << 12) for _ in range(n)]
+    elif kind == "top":
+        vals = [info.max - r.randint(0, 1 << 20) for _ in range(n)]
+    else:
+        vals = [r.randint(0, info.max) for _ in range(n)]
+        vals[0], vals[-1] = 0, info.max
+    if len(set(vals)) < 2:
+        vals[0] = vals[-1] - 1
+    return {"dtype": dtype, "data": vals}
 
 
 def finite_values(a):
@@ -731,20 +932,35 @@ def build_norm(icfg, scfg, arr, with_data):
     return m.CustomNormalization(icfg["itype"], scfg["stype"], **kw)
 
 
-def oracle_norm(a, icfg, scfg, with_data=True):
-    """the property text on CustomNormalization(...)(data); returns (clause, message) or None"""
+def oracle_norm(a, icfg, scfg, with_data=True, opts=None):
+    """the property text on CustomNormalization(...)(data); returns (clause, message) or None.
+    opts: {"clip": None | True | False — the `clip` argument of __call__;
+           "refreeze": True — call _set_limits again with other data after construction (the limits are
+                       frozen: C20_set_limits_frozen)}"""
     arr = to_np(a)
+    opts = opts or {}
     with _quiet():
         try:
             N = build_norm(icfg, scfg, arr, with_data)
             if with_data:
                 vmin, vmax = float(N.vmin), float(N.vmax)
+                if opts.get("refreeze"):
+                    before = (N.vmin, N.vmax, N.interval)
+                    other = np.where(np.isfinite(arr), arr, 0).astype(np.float64) * 3.0 + 7.0
+                    N._set_limits(other)
+                    after = (N.vmin, N.vmax, N.interval)
+                    if not (float(after[0]) == float(before[0]) and float(after[1]) == float(before[1])
+                            and after[2] == before[2]):
+                        return ("limits-frozen", "a second _set_limits on other data changed the frozen limits "
+                                                 "%r -> %r" % (before, after))
             else:
                 lo, hi = N.interval.get_limits(arr)
                 vmin, vmax = float(lo), float(hi)
-            out = N(arr)
+            out = N(arr) if opts.get("clip") is None else N(arr, clip=opts["clip"])
         except Exception as e:  # noqa
             return ("exception", "CustomNormalization raised %r" % e)
+        if np.shape(out) != arr.shape:
+            return ("shape", "input of shape %r came back with shape %r" % (arr.shape, np.shape(out)))
         mask = np.ma.getmaskarray(out).ravel().tolist()
         vals = np.ma.getdata(out).astype(np.float64).ravel().tolist()
         # rounding slack follows the dtype the implementation computed in (float32 data stay float32:
@@ -754,6 +970,8 @@ def oracle_norm(a, icfg, scfg, with_data=True):
         mt = MONO_TOL if odt == np.float64 else rt
         xs = [float(v) for v in arr.ravel().tolist()]
         fin = finite_values(a)
+        if a["dtype"] == "float16":
+            fin = [v for v in xs if math.isfinite(v)]
         if not (math.isfinite(vmin) and math.isfinite(vmax)):
             return ("limits", "limits (%r, %r) are not finite although the data have finite values" % (vmin, vmax))
         span = max(abs(float(max(fin))), abs(float(min(fin))), 1.0)
@@ -812,9 +1030,26 @@ def oracle_norm(a, icfg, scfg, with_data=True):
                 if not (rt < po[2] < 1 - rt):
                     return ("endpoints", "interior point mapped to %r (normalisation is constant?)" % po[2])
                 back = np.asarray(N.inverse(np.array(po[:3])), dtype=np.float64).tolist()
+                scale = max(1.0, abs(vmin), abs(vmax))
                 for xb, xo in zip(back, probe[:3].tolist()):
-                    if abs(xb - xo) > 1e-7 * max(1.0, abs(vmin), abs(vmax)):
+                    if abs(xb - xo) > 1e-7 * scale:
                         return ("norm-inverse", "inverse(norm(%r)) = %r" % (xo, xb))
+                # the other order: colour-bar positions y -> data value -> y; the inverse is monotone and
+                # stays between the limits
+                ys = [0.0, 0.25, 0.5, 0.75, 1.0]
+                xb = np.asarray(N.inverse(np.array(ys)), dtype=np.float64).tolist()
+                if any(not (vmin - 1e-7 * scale <= v <= vmax + 1e-7 * scale) for v in xb):
+                    return ("norm-inverse", "inverse(%r) = %r leaves the limits (%r, %r)" % (ys, xb, vmin, vmax))
+                if any(b < a_ - 1e-9 * scale for a_, b in zip(xb, xb[1:])):
+                    return ("norm-inverse", "inverse is not monotone: %r -> %r" % (ys, xb))
+                if abs(xb[0] - vmin) > 1e-7 * scale or abs(xb[-1] - vmax) > 1e-7 * scale:
+                    return ("norm-inverse", "inverse(0), inverse(1) = %r, %r are not the limits (%r, %r)"
+                            % (xb[0], xb[-1], vmin, vmax))
+                if (vmax - vmin) >= 1e-3 * scale:
+                    yb = np.ma.filled(N(np.array([xb[0], xb[2], xb[-1]])), np.nan).astype(np.float64).tolist()
+                    for y0, y1 in zip([0.0, 0.5, 1.0], yb):
+                        if not abs(y0 - y1) <= 1e-6:
+                            return ("norm-inverse", "norm(inverse(%r)) = %r" % (y0, y1))
             else:
                 for x, y, mk in zip(xs, vals, mask):
                     if x == vmin and abs(y) > rt:
@@ -838,24 +1073,39 @@ def check_oracle_norm(ctx: Ctx):
         for sc in STRETCH_CFGS:
             cases.append((base, ic, sc, True))
             cases.append((base, ic, sc, False))
+    cases = [c + ({},) for c in cases]
     for _ in range(ctx.budget(450, 6000)):
-        a = gen_array(r)
-        cases.append((a, gen_interval_cfg(r, a), gen_stretch_cfg(r), r.random() < 0.7))
+        a = gen_shape(r, gen_array(r) if r.random() < 0.85 else gen_array_extra(r))
+        wd = r.random() < 0.7
+        opts = {}
+        if r.random() < 0.3:
+            opts["clip"] = r.choice([True, False])
+        if wd and r.random() < 0.25:
+            opts["refreeze"] = True
+        cases.append((a, gen_interval_cfg(r, a), gen_stretch_cfg(r), wd, opts))
     nbad = 0
-    for a, ic, sc, wd in cases:
-        res = oracle_norm(a, ic, sc, wd)
+    for a, ic, sc, wd, opts in cases:
+        res = oracle_norm(a, ic, sc, wd, opts)
         ctx.dist("norm/interval=%s" % ic["itype"])
         ctx.dist("norm/stretch=%s" % sc["stype"])
         ctx.dist("norm/dtype=%s" % a["dtype"])
-        ctx.count(("norm", json.dumps(a, sort_keys=True), json.dumps(ic, sort_keys=True), json.dumps(sc, sort_keys=True), wd),
-                  nontrivial=True)
+        ctx.dist("norm/rank=%d" % (len(a["shape"]) if a.get("shape") else 1))
+        ctx.dist("norm/layout=%s" % (a.get("layout") or "C"))
+        ctx.dist("norm/clip-argument=%s" % opts.get("clip"))
+        if opts.get("refreeze"):
+            ctx.dist("norm/second-_set_limits")
+        ctx.count(("norm", json.dumps(a, sort_keys=True), json.dumps(ic, sort_keys=True), json.dumps(sc, sort_keys=True), wd,
+                   json.dumps(opts, sort_keys=True)), nontrivial=True)
         if res:
             nbad += 1
             clause, msg = res
-            key = classify_failure(a, ic, msg, lambda b, c: oracle_norm(b, c, sc, wd))
+            key = classify_failure(a, ic, msg, lambda b, c: oracle_norm(b, c, sc, wd, opts))
             ctx.violation(key or "%s/%s/%s" % (clause, ic["itype"], sc["stype"]),
-                          "CustomNormalization(%s, %s%s) on %s data: %s" % (ic, sc, ", data=..." if wd else "", a["dtype"], msg),
-                          {"kind": "norm", "array": a, "icfg": ic, "scfg": sc, "with_data": wd})
+                          "CustomNormalization(%s, %s%s) on %s data%s: %s" % (
+                              ic, sc, ", data=..." if wd else "", a["dtype"],
+                              " (shape %s, layout %s, %s)" % (a.get("shape"), a.get("layout"), opts) if (a.get("shape") or opts)
+                              else "", msg),
+                          {"kind": "norm", "array": a, "icfg": ic, "scfg": sc, "with_data": wd, "opts": opts})
     ctx.sample({"kind": "norm", "array": cases[-1][0], "icfg": cases[-1][1], "scfg": cases[-1][2]})
     ctx.log("oracle on CustomNormalization: %d cases, %d failing" % (len(cases), nbad))
 
@@ -1010,6 +1260,434 @@ def presets_and_show(ctx: Ctx):
 
 
 # ==========================================================================================
+# (4b) the frozen-limits state and inputs at / outside the edge of the quantified domain
+
+
+def state_and_edge_cases(ctx: Ctx):
+    """Judged (the model has a theorem about it, so a deviation is a correspondence break):
+         boolean data freeze the limits (0, 1)           C20_set_limits_frozen (CN_set_limits_bool)
+         limits stay frozen under a second _set_limits   C20_set_limits_frozen
+         constant data (vmin = vmax)                      C20_degenerate_safe: in range, no NaN
+       Recorded only (outside "arrays with at least two distinct finite values"; the outcome is written to
+       the evidence so that a silent change of behaviour is visible): scalar and 0-d input, masked-array
+       input, data without any finite value, inverse() before the limits are frozen, matplotlib's
+       inherited autoscale()/autoscale_None()."""
+    m = CN()
+    obs = {}
+    with _quiet():
+        # ---- boolean data
+        barr = np.array([[True, False, True], [False, False, True]])
+        for it in ("quantile", "manual", "centered"):
+            for st, kw in (("linear", {}), ("power", {"power": 2.0}), ("logarithmic", {}), ("asinh", {})):
+                ctx.count(("bool", it, st), nontrivial=True)
+                ctx.dist("state/bool-data")
+                try:
+                    N = m.CustomNormalization(it, st, data=barr, **kw)
+                    lims = (float(N.vmin), float(N.vmax))
+                    out = np.ma.filled(N(barr), np.nan).astype(np.float64)
+                    err = None
+                except Exception as e:  # noqa
+                    err, lims, out = e, None, None
+                ctx.cov["traces_validated_against_impl"] += 1
+                if err is not None or lims != (0.0, 1.0):
+                    ctx.violation("set-limits-bool-correspondence",
+                                  "CustomNormalization(%r, %r, data=<bool array>): model freezes the limits (0, 1), "
+                                  "implementation %s" % (it, st, "raised %r" % err if err is not None else "has %r" % (lims,)),
+                                  {"kind": "state", "what": "bool", "itype": it, "stype": st}, found_input=False)
+                    continue
+                want = barr.astype(np.float64)
+                if not np.allclose(out, want, atol=TOL, rtol=0):
+                    ctx.violation("endpoints/bool/%s" % st,
+                                  "boolean data under (%r, %r): False / True must go to the limits' images 0 / 1, got %r"
+                                  % (it, st, out.tolist()),
+                                  {"kind": "state", "what": "bool", "itype": it, "stype": st})
+        # ---- limits frozen: a second _set_limits, other data through __call__
+        d1 = np.array([1.0, 2.0, 5.0, np.nan, 3.5])
+        d2 = np.array([-40.0, 17.0, 900.0])
+        for it, kw in (("quantile", {}), ("manual", {}), ("manual", {"vmin": 1.5}), ("centered", {"vcenter": 2.0}),
+                       ("centered", {"vcenter": 2.0, "half_range": 4.0})):
+            ctx.count(("frozen", it, json.dumps(kw, sort_keys=True)), nontrivial=True)
+            ctx.dist("state/frozen-limits")
+            N = m.CustomNormalization(it, "linear", data=d1, **kw)
+            l0 = (float(N.vmin), float(N.vmax))
+            o0 = np.ma.filled(N(d2), np.nan).tolist()
+            N(d2)
+            N._set_limits(d2)
+            N._set_limits(d1 * 2)
+            l1 = (float(N.vmin), float(N.vmax))
+            il = tuple(float(v) for v in N.interval.get_limits(d2))
+            o1 = np.ma.filled(N(d2), np.nan).tolist()
+            ctx.cov["traces_validated_against_impl"] += 1
+            if not (l0 == l1 == il and o0 == o1):
+                ctx.violation("set-limits-correspondence",
+                              "limits frozen by data= do not stay frozen (model: C20_set_limits_frozen): (%r, %r): "
+                              "attributes %r -> %r, interval limits %r, outputs %r -> %r" % (it, kw, l0, l1, il, o0, o1),
+                              {"kind": "state", "what": "frozen", "itype": it, "kw": kw}, found_input=False)
+        # ---- constant data: vmin = vmax
+        for dt in ("float64", "float32", "int16", "uint8"):
+            const = np.full((2, 3), 3, dtype=dt)
+            for it in ("quantile", "manual", "centered"):
+                for st in ("linear", "power", "logarithmic", "asinh"):
+                    ctx.count(("constant", dt, it, st), nontrivial=False)
+                    ctx.dist("edge/constant-data")
+                    try:
+                        N = m.CustomNormalization(it, st, data=const, **({"power": 0.5} if st == "power" else {}))
+                        out = N(const)
+                        vals = np.ma.getdata(out).astype(np.float64)
+                        bad = bool(np.ma.getmaskarray(out).any()) or bool((~np.isfinite(vals)).any()) \
+                            or vals.min() < -TOL or vals.max() > 1 + TOL
+                        res = "limits (%r, %r) -> all %r" % (float(N.vmin), float(N.vmax), float(vals.flat[0]))
+                    except Exception as e:  # noqa
+                        bad, res = True, "raised %r" % e
+                    ctx.cov["traces_validated_against_impl"] += 1
+                    obs.setdefault("constant data", {})["%s/%s/%s" % (dt, it, st)] = res
+                    if bad:
+                        ctx.violation("degenerate-correspondence",
+                                      "constant %s data under (%r, %r): the model (C20_degenerate_safe) stays inside [0, 1] "
+                                      "without NaN, implementation: %s" % (dt, it, st, res),
+                                      {"kind": "state", "what": "constant", "dtype": dt, "itype": it, "stype": st},
+                                      found_input=False)
+
+        # ---- recorded only
+        def record(label, fn):
+            try:
+                obs[label] = repr(fn())[:300]
+            except Exception as e:  # noqa
+                obs[label] = "raises %s: %s" % (type(e).__name__, str(e)[:120])
+            ctx.dist("edge/recorded")
+
+        Nf = m.CustomNormalization("manual", "power", power=2.0, vmin=0.0, vmax=2.0)
+        record("scalar input N(1.0)", lambda: Nf(1.0))
+        record("0-d array input N(np.array(1.0))", lambda: Nf(np.array(1.0)))
+        record("list input N([0.5, 1.0])", lambda: Nf([0.5, 1.0]).tolist())
+        record("masked-array input (third entry masked, fourth NaN)",
+               lambda: Nf(np.ma.masked_array([0.5, 1.0, 5.0, np.nan], mask=[0, 0, 1, 0])))
+        record("masked-array input, limits from the data (masked entry 500 is ignored or not)",
+               lambda: (lambda N: (float(N.vmin), float(N.vmax)))(m.CustomNormalization(
+                   "manual", "linear", data=np.ma.masked_array([0.5, 1.0, 500.0], mask=[0, 0, 1]))))
+        for it in ("quantile", "manual", "centered"):
+            for label, d in (("only NaN", np.array([np.nan, np.nan])), ("only NaN / inf", np.array([np.nan, np.inf, -np.inf])),
+                             ("empty", np.array([], dtype=np.float64))):
+                record("data with no finite value (%s), %s interval, data=" % (label, it),
+                       lambda it=it, d=d: (lambda N: ("limits", float(N.vmin), float(N.vmax), "output", N(d)))(
+                           m.CustomNormalization(it, "linear", data=d)))
+                record("data with no finite value (%s), %s interval, per call" % (label, it),
+                       lambda it=it, d=d: m.CustomNormalization(it, "linear")(d))
+        record("inverse() of a quantile normalisation whose limits were never frozen",
+               lambda: m.CustomNormalization("quantile", "linear").inverse(np.array([0.0, 0.5, 1.0])).tolist())
+
+        def autoscale():
+            N = m.CustomNormalization("manual", "linear", data=np.array([1.0, 5.0]))
+            N.autoscale(np.array([10.0, 20.0]))
+            return {"vmin/vmax attributes": (float(N.vmin), float(N.vmax)), "interval": repr(N.interval),
+                    "N([10, 20])": np.ma.filled(N(np.array([10.0, 20.0])), np.nan).tolist()}
+        record("matplotlib's inherited autoscale() after data= (attributes move, the interval does not)", autoscale)
+    ctx.cov["observations_outside_domain"] = obs
+    ctx.log("state / edge cases: bool data, frozen limits, constant data judged; %d outcomes recorded" % len(obs))
+
+
+# ==========================================================================================
+# (5) configuration -> constructor arguments -> objects   (visualization.py)
+
+
+def _same(a, b):
+    if a is None or b is None:
+        return a is None and b is None
+    if isinstance(a, str) or isinstance(b, str):
+        return isinstance(a, str) and isinstance(b, str) and a == b
+    try:
+        return float(a) == float(b)
+    except Exception:  # noqa
+        return False
+
+
+def _cfg_defaults(C):
+    return {n: (d if (d is None or isinstance(d, str)) else float(d)) for n, ty, d in C.fields}
+
+
+def ref_resolve(norm, kwargs, C):
+    """what the user asked for, as configuration fields: explicit entries of a dict / fields of a
+    NormalizationConfig / the named preset (as translated into Gen_Cfg.v) / vmin, vmax or the
+    quantiles given as keyword arguments; everything else at the dataclass defaults"""
+    import dataclasses
+    m = CN()
+    out = _cfg_defaults(C)
+    if norm is None:
+        if "vmin" in kwargs or "vmax" in kwargs:
+            out.update(interval_type="manual", vmin=kwargs.get("vmin"), vmax=kwargs.get("vmax"),
+                       stretch_type=kwargs.get("stretch_type", out["stretch_type"]))
+        elif "lower_quantile" in kwargs or "upper_quantile" in kwargs:
+            out.update(interval_type="quantile",
+                       lower_quantile=kwargs.get("lower_quantile", out["lower_quantile"]),
+                       upper_quantile=kwargs.get("upper_quantile", out["upper_quantile"]))
+    elif isinstance(norm, dict):
+        out.update(norm)
+    elif isinstance(norm, str):
+        for k, v in C.presets[norm].items():
+            out[k] = v if (v is None or isinstance(v, str)) else float(v)
+    elif isinstance(norm, m.NormalizationConfig):
+        out.update(dataclasses.asdict(norm))
+    return out
+
+
+def _coq_cfg_value(v, ty):
+    if ty == "string":
+        return '"%s"%%string' % v
+    if ty == "optR":
+        return "None" if v is None else "(Some %s)" % _cr(_fr(v))
+    return _cr(_fr(v))
+
+
+def coq_config(expected, C):
+    return "{| %s |}" % "; ".join("nc_%s := %s" % (n, _coq_cfg_value(expected[n], ty)) for n, ty, _ in C.fields)
+
+
+def coq_obj(prefix, obj):
+    import dataclasses
+    args = []
+    for f in dataclasses.fields(obj):
+        v = getattr(obj, f.name)
+        optional = "None" in str(f.type)
+        if v is None:
+            args.append("None")
+        else:
+            args.append(("(Some %s)" if optional else "%s") % _cr(_fr(v)))
+    return "(%s_%s %s)" % (prefix, type(obj).__name__, " ".join(args))
+
+
+def gen_user_config(r, C, names):
+    """(norm argument, keyword arguments) in the forms the public functions accept"""
+    m = CN()
+    kind = r.choice(["preset", "dict", "dict", "config", "kwargs-limits", "kwargs-quantile", "none"])
+    if kind == "preset":
+        return kind, r.choice(names), {}
+    if kind == "none":
+        return kind, None, {}
+    if kind == "kwargs-limits":
+        lo = r.randint(-8, 8) / 16.0
+        kw = r.choice([{"vmin": lo, "vmax": lo + r.randint(1, 16) / 16.0}, {"vmin": lo}, {"vmax": lo + 1.5}])
+        if r.random() < 0.4:
+            kw["stretch_type"] = r.choice(["logarithmic", "asinh", "power"])
+        return kind, None, kw
+    if kind == "kwargs-quantile":
+        lq = r.choice([0.0, 0.05, 0.1, 0.25])
+        return kind, None, r.choice([{"lower_quantile": lq, "upper_quantile": 1 - lq / 2}, {"lower_quantile": lq},
+                                     {"upper_quantile": 0.75}])
+    d = {}
+    it = r.choice(["quantile", "manual", "centered"])
+    d["interval_type"] = it
+    if it == "quantile" and r.random() < 0.7:
+        d["lower_quantile"] = r.choice([0.0, 0.01, 0.125, 0.3])
+        d["upper_quantile"] = r.choice([0.7, 0.9, 0.99, 1.0])
+    if it == "manual":
+        lo = r.randint(-8, 8) / 16.0
+        if r.random() < 0.8:
+            d["vmin"] = lo
+        if r.random() < 0.8:
+            d["vmax"] = lo + r.randint(1, 24) / 16.0
+    if it == "centered":
+        if r.random() < 0.8:
+            d["vcenter"] = r.randint(-8, 16) / 16.0
+        if r.random() < 0.6:
+            d["half_range"] = r.randint(1, 32) / 16.0
+    st = r.choice(["linear", "power", "logarithmic", "asinh"])
+    d["stretch_type"] = st
+    if st == "power" or r.random() < 0.15:
+        d["power"] = r.choice([0.25, 0.5, 1.0, 2.0, 3.0, r.randint(1, 40) / 8.0])
+    if st == "logarithmic" and r.random() < 0.8:
+        d["logarithmic_index"] = r.choice([0.5, 10.0, 250.0, 4096.0])
+    if st == "asinh" and r.random() < 0.8:
+        d["asinh_linear_range"] = r.choice([0.03125, 0.25, 1.0, 2.5])
+    if kind == "config":
+        return kind, m.NormalizationConfig(**d), {}
+    return kind, d, {}
+
+
+def config_path_check(ctx: Ctx, C):
+    """Every way of giving a configuration to visualization.py, through every function that builds a
+    CustomNormalization.  Observed: the keyword arguments the constructor receives (exact), the
+    interval / stretch objects __init__ builds (-> Coq goals against the translated dispatch), and —
+    the property itself — the normalisation the display then applies to the image.
+    Returns the list of configuration goals for the cross-test."""
+    import dataclasses
+    import matplotlib
+    matplotlib.use("Agg")
+    import matplotlib.pyplot as plt
+    import quantem.core.visualization.visualization as V
+    m = CN()
+    r = ctx.rng
+    goals = []
+    names = sorted(m.NORMALIZATION_PRESETS)
+    if C is not None and set(names) != set(C.presets):
+        ctx.violation("config-presets-correspondence",
+                      "NORMALIZATION_PRESETS at run time %s differ from the translated ones %s" % (names, sorted(C.presets)),
+                      {"kind": "show-config", "note": "preset names"}, found_input=False)
+    rec = []
+    orig = V.CustomNormalization
+
+    class Rec(orig):
+        def __init__(self, *a, **k):
+            self._c20 = {"args": a, "kwargs": dict(k), "interval0": None, "stretch0": None, "frozen": False}
+            rec.append(self)
+            super().__init__(*a, **k)
+            if self._c20["interval0"] is None:
+                self._c20["interval0"], self._c20["stretch0"] = self.interval, self.stretch
+
+        def _set_limits(self, data):
+            if self._c20["interval0"] is None:
+                self._c20["interval0"], self._c20["stretch0"] = self.interval, self.stretch
+            self._c20["frozen"] = True
+            return super()._set_limits(data)
+
+    img = (np.arange(48, dtype=np.float64).reshape(6, 8) * 0.046875 - 0.5)      # -0.5 .. 1.703125, dyadic
+    img[1, 2] = np.nan
+    img2 = np.ascontiguousarray(img[::-1] * 0.5 + 0.25)
+    entries = ["_show_2d_array", "_show_2d_combined", "show_2d", "show_2d-combined", "show_2d-list"]
+    cases = []
+    fixed = [("dict", {"interval_type": "manual", "vmin": 0.125, "vmax": 0.625}, {}),
+             ("dict", {"interval_type": "centered", "vcenter": 0.25, "half_range": 0.75, "stretch_type": "asinh",
+                       "asinh_linear_range": 0.5}, {}),
+             ("dict", {"interval_type": "quantile", "lower_quantile": 0.125, "upper_quantile": 0.875,
+                       "stretch_type": "logarithmic", "logarithmic_index": 64.0}, {}),
+             ("dict", {"stretch_type": "logarithmic", "power": 2.0}, {}),      # a power != 1 wins over stretch_type
+             ("kwargs-limits", None, {"vmin": 0.125, "vmax": 0.625}),
+             ("kwargs-quantile", None, {"lower_quantile": 0.25, "upper_quantile": 0.75})]
+    for kind, norm, kw in fixed:
+        for e in entries:
+            cases.append((e, kind, norm, kw))
+    for name in names:                       # every named preset through every entry point
+        for e in entries:
+            cases.append((e, "preset", name, {}))
+    if C is not None:
+        for _ in range(ctx.budget(24, 400)):
+            kind, norm, kw = gen_user_config(r, C, names)
+            cases.append((r.choice(entries), kind, norm, kw))
+    nbad = 0
+    seen_goals = set()
+    V.CustomNormalization = Rec
+    try:
+        with _quiet():
+            for entry, kind, norm, kw in cases:
+                if C is None:
+                    break
+                rec.clear()
+                expected = ref_resolve(norm, kw, C)
+                n_expected = 1
+                try:
+                    if entry == "_show_2d_array":
+                        V._show_2d_array(img, norm=norm, **kw)
+                    elif entry == "_show_2d_combined":
+                        V._show_2d_combined([img, img2], norm=norm, **kw)
+                    elif entry == "show_2d":
+                        V.show_2d(img, norm=norm, **kw)
+                    elif entry == "show_2d-combined":
+                        V.show_2d([img, img2], combine_images=True, norm=norm, **kw)
+                    else:
+                        n_expected = 2
+                        V.show_2d([img, img2], norm=[norm, norm] if norm is not None else None, **kw)
+                    err = None
+                except Exception as e:  # noqa
+                    err = e
+                finally:
+                    plt.close("all")
+                shown = norm if not dataclasses.is_dataclass(norm) else dataclasses.asdict(norm)
+                rp = {"kind": "show-config", "entry": entry, "form": kind, "norm": shown, "kwargs": kw}
+                ctx.count(("show-config", entry, kind, json.dumps(shown, sort_keys=True), json.dumps(kw, sort_keys=True)),
+                          nontrivial=True)
+                ctx.dist("show-config/entry=%s" % entry)
+                ctx.dist("show-config/form=%s" % kind)
+                if err is not None or len(rec) != n_expected:
+                    nbad += 1
+                    ctx.violation("show2d-config/%s/no-normalisation" % entry,
+                                  "%s with norm=%r, %r: %s" % (entry, shown, kw, "raised %r" % err if err is not None else
+                                                               "constructed %d CustomNormalization objects" % len(rec)), rp)
+                    continue
+                for N in rec:
+                    got = dict(zip([p[0] for p in C.params], N._c20["args"]))
+                    got.update({k: v for k, v in N._c20["kwargs"].items() if k != "data"})
+                    for pname, _ty, d in C.params:
+                        got.setdefault(pname, d if (d is None or isinstance(d, str)) else float(d))
+                    wrong = [k for k in expected if not _same(got.get(k), expected[k])]
+                    ctx.cov["traces_validated_against_impl"] += 1
+                    if wrong:
+                        nbad += 1
+                        # the property, on this input: the display's normalisation against the configured one
+                        ref = orig(**expected)
+                        probe = img if entry != "show_2d-combined" and "combined" not in entry else img
+                        a_out = np.ma.filled(N(probe), np.nan)
+                        if N._c20["frozen"]:
+                            ref._set_limits(probe)
+                        r_out = np.ma.filled(ref(probe), np.nan)
+                        differs = not np.allclose(a_out, r_out, rtol=0, atol=1e-9, equal_nan=True)
+                        what = ("%s(norm=%r%s): configuration field(s) %s do not reach CustomNormalization: asked %s, "
+                                "constructor received %s" % (entry, shown, "".join(", %s=%r" % kv for kv in kw.items()), wrong,
+                                                             {k: expected[k] for k in wrong}, {k: got.get(k) for k in wrong}))
+                        if differs:
+                            lim = ""
+                            if expected["interval_type"] == "manual" and expected["vmin"] is not None \
+                                    and expected["vmax"] is not None:
+                                po = np.ma.filled(N(np.array([expected["vmin"], expected["vmax"]])), np.nan).tolist()
+                                lim = "; the configured limits %r, %r are displayed at %r, %r instead of 0, 1" % (
+                                    expected["vmin"], expected["vmax"], po[0], po[1])
+                            what += "; the displayed normalisation differs from the configured one by %.3g%s" % (
+                                float(np.nanmax(np.abs(a_out - r_out))), lim)
+                        slug = "show2d-combined-norm-dropped" if entry == "show_2d-combined" else \
+                            "show2d-config/%s/%s" % (entry, wrong[0])
+                        ctx.cov["disagreements_checked"] += 1
+                        ctx.violation(slug, what, rp, found_input=differs)
+                        continue
+                    # objects built by __init__ (before _set_limits froze the interval) -> Coq goals
+                    fn = "show_2d_combined_args" if "combined" in entry else "show_2d_array_args"
+                    cc = coq_config(expected, C)
+                    for lbl, g in (("interval", "CN_init_interval (%s %s) = Some %s" % (fn, cc, coq_obj("IO", N._c20["interval0"]))),
+                                   ("stretch", "CN_init_stretch (%s %s) = Some %s" % (fn, cc, coq_obj("SO", N._c20["stretch0"])))):
+                        if g not in seen_goals:
+                            seen_goals.add(g)
+                            goals.append(("%s: %s object for %r %r" % (entry, lbl, shown, kw), ("prop", g), None))
+            # configurations the constructor must reject
+            if C is not None:
+                for bad_cfg, goal_of in (
+                        ({"interval_type": "percentile"}, lambda cc: ["CN_init_interval (show_2d_array_args %s) = None" % cc]),
+                        ({"stretch_type": "sqrt"}, lambda cc: ["CN_init_stretch (show_2d_array_args %s) = None" % cc]),
+                        ({"stretch_type": "power", "power": -1.0},
+                         lambda cc: ["CN_init_stretch (show_2d_array_args %s) = Some (SO_PowerLawStretch (- 1))" % cc,
+                                     "~ so_domain (SO_PowerLawStretch (- 1))"]),
+                        ({"power": 0.0},
+                         lambda cc: ["CN_init_stretch (show_2d_array_args %s) = Some (SO_PowerLawStretch 0)" % cc,
+                                     "~ so_domain (SO_PowerLawStretch 0)"]),
+                        ({"stretch_type": "logarithmic", "logarithmic_index": 0.0},
+                         lambda cc: ["~ so_domain (SO_LogarithmicStretch 0)"]),
+                        ({"stretch_type": "asinh", "asinh_linear_range": -0.5},
+                         lambda cc: ["~ so_domain (SO_InverseHyperbolicSineStretch (- (1 / 2)))"])):
+                    rec.clear()
+                    try:
+                        V._show_2d_array(img, norm=bad_cfg)
+                        raised = None
+                    except ValueError as e:
+                        raised = e
+                    except Exception as e:  # noqa
+                        raised = e
+                    finally:
+                        plt.close("all")
+                    ctx.count(("show-config-rejected", json.dumps(bad_cfg, sort_keys=True)), nontrivial=True)
+                    ctx.dist("show-config/rejected")
+                    if not isinstance(raised, ValueError):
+                        nbad += 1
+                        ctx.violation("config-dispatch-correspondence",
+                                      "_show_2d_array(norm=%r): the model's constructor rejects this configuration, the "
+                                      "implementation %s" % (bad_cfg, "raised %r" % raised if raised else "accepted it"),
+                                      {"kind": "show-config", "entry": "_show_2d_array", "form": "dict", "norm": bad_cfg,
+                                       "kwargs": {}}, found_input=False)
+                    cc = coq_config(ref_resolve(bad_cfg, {}, C), C)
+                    for g in goal_of(cc):
+                        goals.append(("rejected configuration %r" % bad_cfg, ("prop", g), None))
+    finally:
+        V.CustomNormalization = orig
+    ctx.log("configuration path: %d calls, %d failing, %d configuration goals" % (len(cases), nbad, len(goals)))
+    return goals
+
+
+# ==========================================================================================
 
 
 def corpus(ctx):
@@ -1026,6 +1704,8 @@ def run(ctx: Ctx):
                                "CustomNormalization.__call__", "CustomNormalization.inverse",
                                "_resolve_normalization"])
     ctx.hash_sources("core/visualization/visualization.py", ["_show_2d_array", "_show_2d_combined"])
+    # (further definitions the configuration path runs through are read by translate_config on every run and
+    # exercised by config_path_check; they are not in the drift-guard baseline)
     ctx.cov["rule"] = (
         "cases: (array [dtype in float64/float32/int8..int64/uint8/16, dyadic-grid / wide-range / duplicate-heavy values, "
         "NaN and +-inf entries], interval configuration [quantile pairs, manual default/one-sided/explicit float or int "
@@ -1050,18 +1730,91 @@ def run(ctx: Ctx):
         "harness/props/C20.py (generators, tolerances, Python->Coq printers), harness/common.py",
         "PrimFloat primitives (binary64 sub/div/compare) = NumPy float64 operations",
     ]
-    T, built = proof_phase(ctx)
+    problems: list = []
+    cmd1 = static_proofs(ctx, problems)
+    T, C = translate_phase(ctx, problems)
+    chain = GenChain(ctx)
+    chain.start()                                   # fixed proof scripts + Print Assumptions, in the background
+    have_norm = T is not None and (ctx.dir / "Gen_Norm.vo").exists()
+    have_cfg = C is not None and (ctx.dir / "Gen_Cfg.vo").exists()
+    goals = config_path_check(ctx, C if have_cfg else None)
     xt = None
-    if T is not None and (ctx.dir / "Gen_Norm.vo").exists():
-        pts = build_crosstest(ctx, T)
-        xt = CrossTest(ctx, T, pts)
+    if have_norm:
+        pts = build_crosstest(ctx, T) + (goals if have_cfg else [])
+        xt = CrossTest(ctx, T, pts, have_cfg)
         xt.start()
     check_interval_correspondence(ctx)
     check_stretch_pairs(ctx)
     check_oracle_norm(ctx)
     presets_and_show(ctx)
+    state_and_edge_cases(ctx)
     if xt is not None:
         finish_crosstest(ctx, xt)
+    chain.join()
+    problems += chain.problems
+    if chain.error:
+        (ctx.dir / "proof_chain_error.log").write_text(chain.error)
+    ctx.cov["checker_cmd"] = (
+        cmd1 + "  ;  python -m harness.translate_norm > build/C20/Gen_Norm.v (+ translate_config > build/C20/Gen_Cfg.v) "
+        "&& coqc %s Gen_Norm.v Gen_Cfg.v && coqc ... -o build/C20/<script>.vo coq/gen_proofs/{C20_GenProofs,C20_GenProofs2,"
+        "C20_GenProofsCfg}.v && coqc ... coq/gen_proofs/{C20_GenProperties,C20_GenPropertiesCfg}.v" % " ".join(GEN_FLAGS(ctx)))
+    if problems:
+        ctx.broken_obligation = "; ".join(problems)
+        ctx.log("PROOF OBLIGATION BROKEN:", ctx.broken_obligation[:3000])
+
+
+def replay_show_config(rp):
+    """re-run one call of the configuration path and print what reaches the constructor"""
+    import matplotlib
+    matplotlib.use("Agg")
+    import matplotlib.pyplot as plt
+    import quantem.core.visualization.visualization as V
+    m = CN()
+    C = TN.translate_config((SRC / "quantem" / SRC_REL).read_text(), (SRC / "quantem" / VIS_REL).read_text())
+    entry, norm, kw = rp["entry"], rp["norm"], rp.get("kwargs", {})
+    if rp.get("form") == "config":
+        norm = m.NormalizationConfig(**norm)
+    expected = ref_resolve(norm, kw, C)
+    rec, orig = [], V.CustomNormalization
+
+    class Rec(orig):
+        def __init__(self, *a, **k):
+            rec.append((a, {x: y for x, y in k.items() if x != "data"}))
+            super().__init__(*a, **k)
+
+    img = (np.arange(48, dtype=np.float64).reshape(6, 8) * 0.046875 - 0.5)
+    img2 = np.ascontiguousarray(img[::-1] * 0.5 + 0.25)
+    V.CustomNormalization = Rec
+    try:
+        with _quiet():
+            if entry == "_show_2d_array":
+                V._show_2d_array(img, norm=norm, **kw)
+            elif entry == "_show_2d_combined":
+                V._show_2d_combined([img, img2], norm=norm, **kw)
+            elif entry == "show_2d":
+                V.show_2d(img, norm=norm, **kw)
+            elif entry == "show_2d-combined":
+                V.show_2d([img, img2], combine_images=True, norm=norm, **kw)
+            else:
+                V.show_2d([img, img2], norm=[norm, norm] if norm is not None else None, **kw)
+    except Exception as e:  # noqa
+        print("raised", repr(e))
+        return 1
+    finally:
+        V.CustomNormalization = orig
+        plt.close("all")
+    bad = 0
+    print("entry:", entry, "\nnorm:", rp["norm"], "\nkeyword arguments:", kw, "\nasked for:", expected)
+    for a, k in rec:
+        got = dict(zip([p[0] for p in C.params], a))
+        got.update(k)
+        for pname, _ty, d in C.params:
+            got.setdefault(pname, d if (d is None or isinstance(d, str)) else float(d))
+        wrong = [x for x in expected if not _same(got.get(x), expected[x])]
+        print("CustomNormalization received:", got, "\n  fields that differ:", wrong)
+        bad += bool(wrong)
+    print("oracle:", "the configuration does not reach the normalisation" if bad or not rec else "property holds on this case")
+    return 1 if bad or not rec else 0
 
 
 def replay(ctx: Ctx, path):
@@ -1076,8 +1829,8 @@ def replay(ctx: Ctx, path):
         print("oracle:", bad or "property holds on this case")
         return 1 if bad else 0
     if kind == "norm":
-        res = oracle_norm(rp["array"], rp["icfg"], rp["scfg"], rp.get("with_data", True))
-        print("array:", rp["array"], "\ninterval:", rp["icfg"], "\nstretch:", rp["scfg"])
+        res = oracle_norm(rp["array"], rp["icfg"], rp["scfg"], rp.get("with_data", True), rp.get("opts"))
+        print("array:", rp["array"], "\ninterval:", rp["icfg"], "\nstretch:", rp["scfg"], "\noptions:", rp.get("opts"))
         with _quiet():
             try:
                 N = build_norm(rp["icfg"], rp["scfg"], to_np(rp["array"]), rp.get("with_data", True))
@@ -1093,6 +1846,12 @@ def replay(ctx: Ctx, path):
     if kind == "show":
         presets_and_show(ctx)
         return 1 if ctx.n_violations else 0
+    if kind == "state":
+        state_and_edge_cases(ctx)
+        print(json.dumps(ctx.cov.get("observations_outside_domain", {}), indent=1)[:3000])
+        return 1 if ctx.n_violations else 0
+    if kind == "show-config":
+        return replay_show_config(rp)
     print("replay of kind %r: re-run ./check C20 (the replay file names the obligation that no longer checks)" % kind)
     print(rp.get("what", ""))
     return 0
